@@ -16,33 +16,66 @@ RULE = ("Model-based histories (Hypothesis composite tracking inside/outside-tes
         "replayed on every reporter class; after every call current_tags must equal the (global, local) model "
         "and at every outcome the tags seen by wrapped results / the stream consumer must equal the model. "
         "Also: run boundaries anywhere between tests (a first explicit start after activity, a start during a run, reports after a stop), tags() by keyword, the caller adding to the set current_tags returned, tests that drop every current tag, doubles.ExtendedTestResult and ETOD over 2.6 / Twisted-style results as reporters, the tags handed to TestByTestResult's callback. "
+        "Also: in half of the cases current_tags is read only after a drawn subset of the calls (and after the last one) - a read is "
+        "not an event of the history, so a reporter nobody looks at in between must end up in the same state - backed by an "
+        "exhaustive grid (every reporter x 6 fixed histories x 4 probe masks); a second ThreadsafeForwardingResult on the same "
+        "target reporting its own tagged tests in between (each forwarder's tests are observed with that forwarder's tags only); "
+        "an empty and a non-ASCII multi-character tag; the sets given to Tagger / PlaceHolder changed by the caller after "
+        "construction; current_tags compared as handed out (a list is not a set of tags) and the sets handed to "
+        "TestByTestResult's callback / kept in StreamToDict's dicts looked at after the run, one callback per stopTest (tags as at the stop or as at the outcome). "
+        "PlaceHolder.run may scope its tags either way (run level around the test as today, with or without the final "
+        "removal of tags that were current before, or inside the test): every reading the reporter stays consistent with is admitted. "
         "Non-trivial: a test-local change followed by a later test, or a second startTestRun, or the start-less "
         "pair; distinct = distinct canonical (reporter, history).")
 ASSUMPTIONS = [
     "tags() is called with disjoint new/gone sets",
-    "for PlaceHolder.run only the tags observed at its outcome are asserted (its own add/remove calls are "
-    "ordinary global tags() calls that the model follows)",
+    "PlaceHolder.run is part of the reporter side, not a result under test: how it brackets its tags (run level before "
+    "startTest and removed after stopTest - today's code, DESIGN 11.2 - or restored exactly, or inside the test after "
+    "startTest) is not asserted; what is asserted is that the result's current_tags and what observers saw fit one of "
+    "these readings throughout the history, and that the placeholder's tags are current at its outcome",
+    "a tags() call between a start-less addSkip and its stopTest is a run-level change (there is no startTest, hence no "
+    "test scope): the letter of 'changes made outside a test persist'",
+    "TestByTestResult's callback may get the tags current when the test stopped (its docstring: 'called on stopTest with "
+    "the accumulated values' - today's code) or those at the outcome (the only moment the statement knows), as any iterable, "
+    "but the same reading for every test of a history",
+    "copy semantics (DESIGN 11.10): what current_tags returns is the caller's, and the tag set of a final event / a "
+    "callback does not change after it was handed over",
+    "with two ThreadsafeForwardingResults on one target only the first one starts / stops runs on it; the second one "
+    "reports whole tests (startTest, tags, addSuccess, stopTest) and run-level tags() calls between the first one's calls",
 ]
 
 REPORTERS = ["TestResult", "TextTestResult", "TestByTestResult", "MultiTestResult", "ThreadsafeForwardingResult",
              "Tagger", "TestResultDecorator", "ETOD-ext", "ETOD-py27", "ETSD-S2E", "ETOD-TestResult", "Tagger-TSFR",
-             "doubles-Extended", "ETOD-py26", "ETOD-twisted", "ETOD-doubles"]
+             "doubles-Extended", "ETOD-py26", "ETOD-twisted", "ETOD-doubles", "TSFR-pair"]
 
-HIST = H.s_history(max_tests=4, with_time=False, with_startless=True, with_placeholder=True, max_ops=24, loose_runs=True)
+# the usual four letters (twice: two changes must keep meeting on the same tag), an empty tag, a non-ASCII tag with a blank
+TAGS17 = H.TAGS + H.TAGS + ["", "été long"]
+TAGSET17 = st.sets(st.sampled_from(TAGS17), max_size=2)
+HIST = H.s_history(max_tests=4, with_time=False, with_startless=True, with_placeholder=True, max_ops=24, loose_runs=True,
+                   tagset=TAGSET17, all_tags=TAGS17)
+PROBE_AT = st.sets(st.integers(0, 29))                        # after which calls current_tags is read (always after the last)
+OTHER_AT = st.sets(st.integers(0, 20), min_size=1, max_size=4)    # before which calls the second forwarder reports a test
 
 
 @st.composite
 def s_case(draw):
-    return {"reporter": draw(st.sampled_from(REPORTERS)), "history": draw(HIST), "scratch_tags": draw(st.booleans()),
+    spec = {"reporter": draw(st.sampled_from(REPORTERS)), "history": draw(HIST), "scratch_tags": draw(st.booleans()),
             "tags_by_keyword": draw(st.booleans()), "mutate_returned": draw(st.booleans()),
-            "tagger": [sorted(draw(H.TAGSET)), sorted(draw(H.TAGSET))]}
+            "tagger": [sorted(draw(H.TAGSET)), sorted(draw(H.TAGSET))],
+            "probe": sorted(draw(PROBE_AT)) if draw(st.booleans()) else None,
+            "touch_args": draw(st.booleans())}
+    if spec["reporter"] == "TSFR-pair":
+        spec["other_at"] = sorted(draw(OTHER_AT))
+    return spec
 
 
 def build(name, spec):
-    """-> (reporter, observers) where observers is a list of (label, fn() -> list of frozenset tags at outcomes)."""
+    """-> (reporter, observers, extra, other) where observers is a list of (label, fn() -> list of tag sets at outcomes),
+    extra the (new, gone) a Tagger applies at every startTest and other a second forwarder on the same target (or None)."""
     from testtools.testresult import real
     import testtools
     obs = []
+    other = None
 
     def ext_obs(label, ext):
         obs.append((label, lambda: [e[2]["tags"] for e in ext.events if e[0].startswith("add")]))
@@ -68,6 +101,13 @@ def build(name, spec):
         setattr(Probe, m, mk(m))
 
     tagger_new, tagger_gone = set(spec["tagger"][0]), set(spec["tagger"][1]) - set(spec["tagger"][0])
+    given_new, given_gone = set(tagger_new), set(tagger_gone)         # the objects the constructor gets
+
+    def touch():
+        if spec.get("touch_args"):
+            # the caller goes on using its two sets; the Tagger was told what to do when it was made
+            given_new.add("later")
+            given_gone.update(H.TAGS)
     extra = (set(), set())
     if name == "TestResult":
         r = testtools.TestResult()
@@ -75,7 +115,7 @@ def build(name, spec):
         r = testtools.TextTestResult(io.StringIO())
     elif name == "TestByTestResult":
         handed = []
-        r = real.TestByTestResult(lambda **kw: handed.append(frozenset(kw["tags"])))
+        r = real.TestByTestResult(lambda **kw: handed.append(kw["tags"]))
         obs.append(("@stop:TestByTestResult-callback", lambda: handed))       # the tags current when the test stopped
     elif name == "MultiTestResult":
         e, p = Ext(), Probe()
@@ -86,14 +126,22 @@ def build(name, spec):
         e = Ext()
         r = testtools.ThreadsafeForwardingResult(e, threading.Semaphore(1))
         ext_obs("tsfr->ext", e)
+    elif name == "TSFR-pair":
+        e = Ext()
+        sem = threading.Semaphore(1)
+        r = testtools.ThreadsafeForwardingResult(e, sem)
+        other = testtools.ThreadsafeForwardingResult(e, sem)
+        ext_obs("tsfr-pair->ext", e)
     elif name == "Tagger":
         e = Ext()
-        r = real.Tagger(e, tagger_new, tagger_gone)
+        r = real.Tagger(e, given_new, given_gone)
+        touch()
         extra = (tagger_new, tagger_gone)
         ext_obs("tagger->ext", e)
     elif name == "Tagger-TSFR":
         e = Ext()
-        r = real.Tagger(testtools.ThreadsafeForwardingResult(e, threading.Semaphore(1)), tagger_new, tagger_gone)
+        r = real.Tagger(testtools.ThreadsafeForwardingResult(e, threading.Semaphore(1)), given_new, given_gone)
+        touch()
         extra = (tagger_new, tagger_gone)
         ext_obs("tagger->tsfr->ext", e)
     elif name == "TestResultDecorator":
@@ -128,56 +176,157 @@ def build(name, spec):
             testtools.CopyStreamResult([rec, testtools.StreamToExtendedDecorator(e), s2d]))
         ext_obs("stream->ext", e)
         # a consumer that keeps the test dicts it was given and looks at them after the run
-        obs.append(("StreamToDict-kept-dicts", lambda: [frozenset(d["tags"]) for d in dicts if d["status"] != "inprogress"]))
+        obs.append(("StreamToDict-kept-dicts", lambda: [d["tags"] for d in dicts if d["status"] != "inprogress"]))
         obs.append(("final-status-events", lambda: [
             (s["test_tags"] or frozenset()) for s in rec.statuses()
             if s["test_status"] in streams.FINAL]))
     else:
         raise AssertionError(name)
-    return r, obs, extra
+    return r, obs, extra, other
+
+
+class _Reading:
+    """One admissible reading of the history so far: the (global, local) model and what it says observers saw."""
+
+    def __init__(self, m=None, at_outcome=(), at_stop=()):
+        self.m = m or H.TagModel()
+        self.at_outcome = list(at_outcome)
+        self.at_stop = list(at_stop)
+
+    def fork(self):
+        m = H.TagModel()
+        m.g = set(self.m.g)
+        m.l = None if self.m.l is None else set(self.m.l)
+        return _Reading(m, self.at_outcome, self.at_stop)
+
+    def key(self):
+        return (frozenset(self.m.g), None if self.m.l is None else frozenset(self.m.l),
+                tuple(self.at_outcome), tuple(self.at_stop))
+
+    def outcome(self):
+        self.at_outcome.append(frozenset(self.m.current))
+
+    def stop(self):
+        self.at_stop.append(frozenset(self.m.current))
+
+
+def _placeholder_readings(b, tags, extra):
+    """What PlaceHolder(tags).run may do to a result whose state is ``b`` (outside a test).  The first one is today's code."""
+    out = []
+    for how in ("run-level, removed", "run-level, restored", "inside the test"):
+        f = b.fork()
+        before = set(f.m.g)
+        if how != "inside the test":
+            f.m.change(tags, ())
+        f.m.start_test()
+        f.m.change(*extra)
+        if how == "inside the test":
+            f.m.change(tags, ())
+        f.outcome()
+        f.stop()
+        f.m.stop_test()
+        if how == "run-level, removed":
+            f.m.change((), tags)
+        elif how == "run-level, restored":
+            f.m.g = before
+        out.append(f)
+    return out
+
+
+def _same_tags(got, want):
+    """``got`` (whatever the code handed out) equals the set ``want`` - by the object's own equality, not after a conversion:
+    a list of tags is not the set of tags."""
+    try:
+        return bool(got == want)
+    except Exception:
+        return False
 
 
 def run_case(spec):
     vs = []
     name = spec["reporter"]
-    r, obs, extra = build(name, spec)
-    model = H.TagModel()
+    r, obs, extra, other = build(name, spec)
+    readings = [_Reading()]                   # every reading of the history the reporter has been consistent with so far
     scratch = (set(), set())
-    expected_at_outcome = []
-    expected_at_stop = []
-    tests = {}
     cur = None
     local_then_later = second_run = startless = False
     local_change_seen = False
     nruns = 0
+    ops = spec["history"]["ops"]
+    probe = spec.get("probe")
+    probe = None if probe is None else set(probe)
+    other_at = set(spec.get("other_at") or ()) if other is not None else set()
+    other_model = H.TagModel()
+    other_n = 0
+
+    def every(f):
+        for b in readings:
+            f(b)
 
     def check(step):
         try:
-            got = set(r.current_tags)
+            handed = r.current_tags
+            got = set(handed)
         except Exception as e:
             vs.append(V("current_tags", "%s-raises-%s" % (name, type(e).__name__),
                         "current_tags raised %r after %s" % (e, step)))
             return False
+        fit = [b for b in readings if got == b.m.current]
+        if fit and not _same_tags(handed, fit[0].m.current):
+            vs.append(V("current_tags", "%s-not-a-set" % name,
+                        "current_tags is %r after %s: the right tags, but not a set of them" % (handed, step)))
+            return False
         if spec.get("mutate_returned"):
             # what current_tags hands out is the caller's to scribble on
             try:
-                handed = r.current_tags
                 handed.add("scribbled-by-the-caller")
             except Exception:
                 pass
-        if got != model.current:
+        if not fit:
+            want = sorted(readings[0].m.current)
+            alt = [sorted(b.m.current) for b in readings[1:] if b.m.current != readings[0].m.current]
             vs.append(V("current_tags", "%s-after-%s" % (name, step.split("(")[0]),
-                        "current_tags is %r, model says %r after %s" % (sorted(got), sorted(model.current), step)))
+                        "current_tags is %r, model says %r after %s%s" % (
+                            sorted(got), want, step, " (or %r, depending on how PlaceHolder.run scopes its tags)" % alt if alt else "")))
+            return False
+        readings[:] = fit
+        return True
+
+    def other_reports(n):
+        """The second forwarder on the same target: a run-level change, then one whole test with a tag of its own."""
+        nonlocal other_n
+        new, gone = (({"o"}, set()), (set(), {"o"}), ({"o", "t"}, set()))[other_n % 3]
+        other.tags(set(new), set(gone))
+        other_model.change(new, gone)
+        t = H.make_test(100 + other_n, "case")
+        other.startTest(t)
+        other_model.start_test()
+        other.tags({"p%d" % other_n}, {"t"})
+        other_model.change({"p%d" % other_n}, {"t"})
+        seen = frozenset(other_model.current)
+        every(lambda b: b.at_outcome.append(seen))
+        other.addSuccess(t)
+        other.stopTest(t)
+        other_model.stop_test()
+        other_n += 1
+        got = other.current_tags
+        if set(got) != other_model.current:
+            vs.append(V("current_tags", "TSFR-pair-second-forwarder",
+                        "the second forwarder's current_tags is %r, it was told %r (before op %d)" % (
+                            sorted(got), sorted(other_model.current), n)))
             return False
         return True
 
     ok = True
-    for n, op in enumerate(spec["history"]["ops"]):
+    for n, op in enumerate(ops):
         k = op["op"]
         try:
+            if n in other_at and not other_reports(n):
+                ok = False
+                break
             if k == "startTestRun":
                 r.startTestRun()
-                model.start_run()
+                every(lambda b: b.m.start_run())
                 nruns += 1
                 if nruns >= 2 or n > 0:
                     second_run = True
@@ -193,46 +342,48 @@ def run_case(spec):
                     r.tags(new_tags=set(op["new"]), gone_tags=set(op["gone"]))
                 else:
                     r.tags(set(op["new"]), set(op["gone"]))
-                model.change(op["new"], op["gone"])
-                if model.l is not None and (op["new"] or op["gone"]):
+                every(lambda b: b.m.change(op["new"], op["gone"]))
+                if readings[0].m.l is not None and (op["new"] or op["gone"]):
                     local_change_seen = True
             elif k == "startTest":
                 cur = H.make_test(op["i"], op["tk"])
                 r.startTest(cur)
-                model.start_test()
-                model.change(*extra)
+                every(lambda b: (b.m.start_test(), b.m.change(*extra)))
                 if local_change_seen:
                     local_then_later = True
             elif k == "outcome":
-                expected_at_outcome.append(frozenset(model.current))
+                every(_Reading.outcome)
                 H.outcome_call(r, cur, op)
             elif k == "stopTest":
-                expected_at_stop.append(frozenset(model.current))
+                every(_Reading.stop)
                 r.stopTest(cur)
-                model.stop_test()
+                every(lambda b: b.m.stop_test())
             elif k == "startless_skip":
                 t = H.make_test(op["i"], "case")
                 # a Tagger tags at startTest, which never happens here
-                expected_at_outcome.append(frozenset(model.current))
+                every(_Reading.outcome)
                 r.addSkip(t, op["reason"])
                 tb = op.get("tags_between")
                 if tb:
                     # there is no test-local scope (startTest never happened): this is a run-level change
                     r.tags(set(tb["new"]), set(tb["gone"]))
-                    model.change(tb["new"], tb["gone"])
-                expected_at_stop.append(frozenset(model.current))
+                    every(lambda b: b.m.change(tb["new"], tb["gone"]))
+                every(_Reading.stop)
                 r.stopTest(t)
                 startless = True
             elif k == "placeholder":
                 import testtools
-                ph = testtools.PlaceHolder("ph.%d" % op["i"], outcome=H.METHOD[op["kind"]], tags=set(op["tags"]))
-                model.change(op["tags"], ())
-                model.start_test()
-                model.change(*extra)
-                expected_at_outcome.append(frozenset(model.current))
-                expected_at_stop.append(frozenset(model.current))
-                model.stop_test()
-                model.change((), op["tags"])
+                given = set(op["tags"])
+                ph = testtools.PlaceHolder("ph.%d" % op["i"], outcome=H.METHOD[op["kind"]], tags=given)
+                if spec.get("touch_args"):
+                    given.add("later")          # the caller's set, changed after the placeholder was made
+                forks, seen = [], set()
+                for b in readings:
+                    for f in _placeholder_readings(b, op["tags"], extra):
+                        if f.key() not in seen:
+                            seen.add(f.key())
+                            forks.append(f)
+                readings[:] = forks
                 ph.run(r)
             else:
                 continue
@@ -242,33 +393,93 @@ def run_case(spec):
             vs.append(V("call", "%s-%s-raises-%s" % (name, k, type(e).__name__), "%s raised %r at op %d" % (k, e, n)))
             ok = False
             break
-        if not check("%s(#%d)" % (k, n)):
+        if (probe is None or n in probe or n == len(ops) - 1) and not check("%s(#%d)" % (k, n)):
             ok = False
             break
     if ok:
+        first = readings[0]
         for label, fn in obs:
             got = list(fn())
             if label.startswith("@stop:"):
-                # one callback per finished test, with the tags that were current when it stopped
-                want_stop = expected_at_stop[:len(got)] if len(got) <= len(expected_at_stop) else expected_at_stop
-                if got != want_stop or len(got) > len(expected_at_stop):
-                    vs.append(V("observed", label[6:], "per-test callbacks saw tags %r, the reporter had %r when those tests stopped" % (
-                        [sorted(g) for g in got], [sorted(w) for w in expected_at_stop])))
-                continue
-            if len(got) != len(expected_at_outcome):
-                vs.append(V("observed", label + "-count", "%d outcomes observed, %d reported" % (len(got), len(expected_at_outcome))))
-                continue
-            for i, (g, w) in enumerate(zip(got, expected_at_outcome)):
-                if g != w:
-                    vs.append(V("observed", label, "outcome %d: observer saw tags %r, reporter had %r" % (
-                        i, sorted(g) if isinstance(g, (set, frozenset)) else g, sorted(w))))
+                # one callback per finished test ("an iterable of tags", says the docstring): with the tags that were current
+                # when the test stopped ("called on stopTest with the accumulated values") or - the statement only knows that
+                # moment - at its outcome; the same reading for every test of the history
+                try:
+                    got = [frozenset(g) for g in got]
+                except Exception:
+                    pass
+                fit = [b for b in readings if len(got) == len(b.at_stop) and (got == b.at_stop or got == b.at_outcome)]
+                if not fit:
+                    vs.append(V("observed", label[6:], "per-test callbacks saw tags %r, the reporter had %r when those tests stopped%s" % (
+                        [sorted(g) if isinstance(g, (set, frozenset)) else g for g in got], [sorted(w) for w in first.at_stop],
+                        "" if first.at_outcome == first.at_stop else " (%r at their outcomes)" % [sorted(w) for w in first.at_outcome])))
                     break
+                readings[:] = fit
+                continue
+            if len(got) != len(first.at_outcome):
+                vs.append(V("observed", label + "-count", "%d outcomes observed, %d reported" % (len(got), len(first.at_outcome))))
+                continue
+            fit = [b for b in readings if all(_same_tags(g, w) for g, w in zip(got, b.at_outcome))]
+            if not fit:
+                for i, (g, w) in enumerate(zip(got, first.at_outcome)):
+                    if not _same_tags(g, w):
+                        vs.append(V("observed", label, "outcome %d: observer saw tags %r, reporter had %r" % (
+                            i, sorted(g) if isinstance(g, (set, frozenset)) else g, sorted(w))))
+                        break
+                break
+            readings[:] = fit
     nt = local_then_later or second_run or startless
     return Case(vs, nt, ["reporter=" + name, "local-then-later" if local_then_later else "",
-                         "second-run" if second_run else "", "startless" if startless else ""],
-                {"expected_at_outcome": [sorted(x) for x in expected_at_outcome][:6]})
+                         "second-run" if second_run else "", "startless" if startless else "",
+                         "sparse-probes" if probe is not None else ""],
+                {"expected_at_outcome": [sorted(x) for x in readings[0].at_outcome][:6]})
+
+
+# ------------------------------------------------------------------ the grid behind the probe mask
+def _ok(marker):
+    return {"op": "outcome", "kind": "success", "payload": {"form": "none", "details": {}}, "marker": marker}
+
+
+def _tags(*new, gone=()):
+    return {"op": "tags", "new": sorted(new), "gone": sorted(gone)}
+
+
+_START, _STOP, _RUN = {"op": "startTest", "i": 0, "tk": "case"}, {"op": "stopTest"}, {"op": "startTestRun"}
+GRID_HISTORIES = [
+    # a tag set right after startTest, nobody looking: it must be gone for the next test
+    [_RUN, _START, _tags("t"), _ok(1), _STOP, dict(_START, i=1), _ok(2), _STOP],
+    # the same without an explicit startTestRun
+    [_START, _tags("t"), _ok(1), _STOP, dict(_START, i=1), _ok(2), _STOP],
+    # a run-level tag dropped inside the test, another one set after the outcome
+    [_RUN, _tags("u"), _START, _tags("t", gone=["u"]), _ok(1), _tags("v"), _STOP, dict(_START, i=1), _ok(2), _STOP, {"op": "stopTestRun"}],
+    # the start-less pair and a placeholder in between, then a second run
+    [_RUN, _tags("u"), _START, _tags("t"), _ok(1), _STOP,
+     {"op": "startless_skip", "i": 1, "reason": "because", "tk": "case", "tags_between": {"new": ["w"], "gone": []}},
+     {"op": "placeholder", "i": 2, "tags": ["u", "v"], "kind": "success"}, dict(_START, i=3), _tags("", gone=["w"]), _ok(2), _STOP,
+     _RUN, dict(_START, i=4), _tags("t"), _ok(3), _STOP],
+    # a test that drops every tag that was current (the consumer must not fall back on what it saw earlier)
+    [_RUN, _tags("u", "w"), _START, _tags(gone=["u", "w"]), _ok(1), _STOP, dict(_START, i=1), _ok(2), _STOP],
+    # nothing but run-level changes around tests that change nothing
+    [_tags("t"), _RUN, _tags("u"), _START, _ok(1), _STOP, _tags("v", gone=["u"]), dict(_START, i=1), _ok(2), _STOP, _tags(gone=["v"])],
+]
+
+
+def grid():
+    for name in REPORTERS:
+        for h, ops in enumerate(GRID_HISTORIES):
+            after = {"last": [], "outcomes": [i for i, o in enumerate(ops) if o["op"] == "outcome"],
+                     "stops": [i for i, o in enumerate(ops) if o["op"] in ("stopTest", "startless_skip", "placeholder")],
+                     "all": None}
+            for label in ("last", "outcomes", "stops", "all"):
+                spec = {"reporter": name, "history": {"ops": ops}, "scratch_tags": False, "tags_by_keyword": False,
+                        "mutate_returned": False, "tagger": [["v"], ["u"]], "probe": after[label], "touch_args": h % 2 == 1}
+                if name == "TSFR-pair":
+                    spec["other_at"] = [1, 3, 5, 8]
+                yield spec
 
 
 def subchecks(tier):
     q = tier == "quick"
-    return [Sub("tag_histories", run_case, s_case(), 3000 if q else 200000)]
+    return [Sub("tag_histories", run_case, s_case(), 3000 if q else 200000),
+            Sub("probe_grid", run_case, enum=grid, enum_complete=True,
+                note="every reporter x 6 fixed histories x current_tags read after: the last call only / outcomes / stops / every call")]
